@@ -1,1 +1,16 @@
-fn main() { println!("stub"); }
+//! vops — operator-level conformance drivers (B3): C05 joins, C08 sorts.
+mod c05;
+mod c08;
+mod val;
+
+fn main() {
+    let a: Vec<String> = std::env::args().collect();
+    match a.get(1).map(|s| s.as_str()) {
+        Some("c05") => c05::main(),
+        Some("c08") => c08::main(),
+        _ => {
+            eprintln!("usage: vops <c05|c08> --in FILE --out FILE [--threads N]");
+            std::process::exit(2);
+        }
+    }
+}
